@@ -105,6 +105,8 @@ def mkq(spec):
         return query.And([mkq(s) for s in spec[1:]])
     if op == "or":
         return query.Or([mkq(s) for s in spec[1:]])
+    if op == "orscale":
+        return query.Or([mkq(s) for s in spec[2:]], scale=spec[1])
     if op == "andnot":
         return query.AndNot(mkq(spec[1]), mkq(spec[2]))
     if op == "andmaybe":
@@ -141,6 +143,17 @@ def ev(spec, corpus):
         parts = [ev(s, corpus) for s in spec[1:]]
         ks = set().union(*[set(p) for p in parts])
         return {i: sum((p.get(i) or 0.0) for p in parts) for i in ks}
+    if op == "orscale":
+        # coordination bonus (the documented "SQR" function of CoordMatcher) over the number of matching terms
+        parts = [ev(s, corpus) for s in spec[2:]]
+        ks = set().union(*[set(p) for p in parts])
+        tc, scale = len(parts), spec[1]
+        out = {}
+        for i in ks:
+            score = sum((p.get(i) or 0.0) for p in parts)
+            matching = sum(1 for p in parts if i in p)
+            out[i] = (score + ((matching - 1) / (tc - scale) ** 2)) * ((tc - 1) / tc)
+        return out
     if op == "andnot":
         a, b = ev(spec[1], corpus), ev(spec[2], corpus)
         return {i: s for i, s in a.items() if i not in b}
@@ -519,13 +532,68 @@ def check_limited_nested(fails):
         signal.signal(signal.SIGALRM, old)
 
 
+def check_coord(fails):
+    """C11 deterministic family: Or(scale=...) (CoordMatcher) over one segment in which every query term occurs: the
+    (document, score) list read by stepping is what replace(0) and copy() continue with, from every position.  (Random
+    corpora are not used for this kind: the coordination bonus counts the term matchers present in the tree, so its value
+    for corpora lacking a term is not fixed by any property.)"""
+    from whoosh import fields, query, scoring
+    from whoosh.filedb.filestore import RamStorage
+    ix = RamStorage().create_index(fields.Schema(t=fields.TEXT))
+    w = ix.writer()
+    for text in [u"bravo alfa", u"alfa bravo", u"alfa charlie", u"alfa bravo charlie", u"echo", u"echo alfa", u"charlie"]:
+        w.add_document(t=text)
+    w.commit()
+    T = lambda x: query.Term("t", x)
+    with ix.searcher(weighting=scoring.Frequency()) as s:
+        for q in (query.Or([T(u"alfa"), T(u"charlie")], scale=0.5), query.Or([T(u"alfa"), T(u"echo"), T(u"charlie")], scale=0.5),
+                  query.Or([T(u"echo"), T(u"bravo")], scale=2.0)):
+            def mk():
+                return q.matcher(s, s.context())
+            _check_coord_paths(fails, q, mk, ("replace",))
+    # the same over in-memory list matchers, which implement copy()
+    from whoosh.matching import ListMatcher, UnionMatcher, CoordMatcher
+
+    def mk2():
+        a = ListMatcher([0, 1, 2, 3, 5], [1.0, 2.0, 1.0, 1.0, 3.0], term=("t", b"alfa"))
+        b = ListMatcher([2, 3, 6], [1.0, 2.0, 1.0], term=("t", b"charlie"))
+        return CoordMatcher(UnionMatcher(a, b), scale=0.5)
+    _check_coord_paths(fails, "CoordMatcher(Union(List, List), scale=0.5)", mk2, ("replace", "copy"))
+
+
+def _check_coord_paths(fails, q, mk, hows):
+    if True:
+        if True:
+            ref = []
+            m = mk()
+            while m.is_active():
+                ref.append((m.id(), m.score()))
+                m.next()
+            for j in range(len(ref)):
+                for how in hows:
+                    m = mk()
+                    m.skip_to(ref[j][0])
+                    m2 = m.replace(0) if how == "replace" else m.copy()
+                    tail = []
+                    while m2.is_active():
+                        tail.append((m2.id(), m2.score()))
+                        m2.next()
+                    if tail != ref[j:]:
+                        fails.append({"case": "C11-coord-" + how, "detail": "%r: %s at document %d continues with %r, stepping gives %r"
+                                      % (q, how, ref[j][0], tail, ref[j:]), "corpus": None})
+                        return
+
+
 def main():
     if sys.argv[1] == "--deterministic":
         fails = []
-        check_scoring_paths(fails)
-        check_limited_nested(fails)
+        for fam in (check_scoring_paths, check_limited_nested, check_coord):
+            try:
+                fam(fails)
+            except Exception as e:
+                fails.append({"case": "exception/" + fam.__name__, "detail": "%s: %s" % (type(e).__name__, e), "corpus": None})
         want = sys.argv[2] if len(sys.argv) > 2 else None
-        hit = [f for f in fails if want is None or f["case"] == want]
+        hit = [f for f in fails if want is None or f["case"] == want or f["case"].startswith("exception/")]
         for f in hit:
             print("FAIL", f["case"], "|", f["detail"])
         sys.exit(1 if hit else 0)
@@ -546,11 +614,11 @@ def main():
     with multiprocessing.get_context("fork").Pool(jobs) as pool:
         outs = pool.map(run, chunks)
     fails = [f for fs, _ in outs for f in fs]
-    try:
-        check_scoring_paths(fails)
-        check_limited_nested(fails)
-    except Exception as e:
-        fails.append({"case": "exception/scoring-paths", "detail": "%s: %s | %s" % (type(e).__name__, e, traceback.format_exc()[-400:]), "corpus": None})
+    for fam in (check_scoring_paths, check_limited_nested, check_coord):
+        try:
+            fam(fails)
+        except Exception as e:
+            fails.append({"case": "exception/" + fam.__name__, "detail": "%s: %s | %s" % (type(e).__name__, e, traceback.format_exc()[-400:]), "corpus": None})
     counts = {"corpora": sum(c["corpora"] for _, c in outs), "queries": sum(c["queries"] for _, c in outs)}
     # de-duplicate by case
     seen, uniq = set(), []
